@@ -759,7 +759,7 @@ int _vnacal_new_add_common(vnacal_new_add_arguments_t vnaa)
 	    }
 	    determinant = _vnacommon_mrdivide(&m[0][0], &b[0][0], &a[0][0],
 		    b_rows, b_columns);
-	    if (determinant == 0.0) {
+	    if (determinant == 0.0 || !isnormal(cabs(determinant))) {
 		_vnacal_error(vcp, VNAERR_MATH,
 			"%s: 'a' matrix is singular at frequency index %d",
 			function, findex);
